@@ -1060,6 +1060,8 @@ class Interp:
                 and not self.spec_inline(qn):
             from .apply import apply_contract
             return apply_contract(self, c, fn, args, kwargs, line)
+        if not inline_ok and all(fully_concrete(a) for a in list(args) + list(kwargs.values())):
+            inline_ok = True      # concrete evaluation of a module-level helper (table construction)
         if not inline_ok and self.contract is not None and not self.spec():
             raise Unsupported('call of %s at line %s: callee has no contract and is not declared inline' % (qn, line))
         return self.inline_call(fn, args, kwargs, line)
@@ -1130,6 +1132,22 @@ class Interp:
                 env.set(a.kwarg.arg, d)
         elif kwargs:
             self.raise_py('TypeError', 'unexpected keyword argument %s' % list(kwargs)[0], line)
+
+
+def fully_concrete(v, depth=0):
+    if pv.is_concrete(v):
+        return True
+    if depth > 6:
+        return False
+    if isinstance(v, VList):
+        return not v.symbolic and all(fully_concrete(x, depth + 1) for x in v.items)
+    if isinstance(v, VDict):
+        return not v.symbolic and all(fully_concrete(x, depth + 1) for x in v.vals.values())
+    if isinstance(v, VSet):
+        return not v.symbolic
+    if isinstance(v, tuple):
+        return all(fully_concrete(x, depth + 1) for x in v)
+    return False
 
 
 pv_alloc = pv.alloc
